@@ -30,6 +30,7 @@ def run(tier, seed, replay=None):
     ok_make, obl = proofcheck.obligations(PID, V)
     n = 260 if tier == "quick" else 4000
     dist, samples, coq_cases, coq_want = {}, [], [], []
+    perm_cases, perm_want, n_sched, n_perm_coq = [], [], 0, 0
     for i in range(n):
         kind = rng.choice(["reshape", "reshape", "reshape-op", "permute", "permute", "permute-op", "qtt", "qtt-roundtrip"])
         cplx = rng.random() < 0.3
@@ -82,8 +83,29 @@ def run(tier, seed, replay=None):
                     ref = x.full().permute(perm + [d + p for p in perm]); want_shape = [M[p] for p in perm] + [N[p] for p in perm]
                 desc = {"op": kind, "N": N, "perm": perm, "eps": eps, "dtype": str(dt), "R": [int(r) for r in x.R]}
                 snap = history.Snap(x)
-                y = torchtt.permute(x, perm, eps)
+                # the swap schedule (bond of every supercore SVD, read from the caller's frame) and the SVD oracle's contract
+                import sys as _sys, torchtt._extras as _ex
+                swaps, svd_bad = [], []
+                orig_svd = _ex.SVD
+                def spy_svd(mat):
+                    U, S, Vh = orig_svd(mat)
+                    fr = _sys._getframe(1)
+                    if fr.f_code.co_name == "permute": swaps.append(int(fr.f_locals["i"]))
+                    rec = (U * S.to(U.dtype)) @ Vh
+                    nm = float(mat.abs().pow(2).sum().sqrt())
+                    if float((rec - mat).abs().pow(2).sum().sqrt()) > 1e-12 * nm + 1e-300: svd_bad.append(list(mat.shape))
+                    return U, S, Vh
+                _ex.SVD = spy_svd
+                try:
+                    y = torchtt.permute(x, perm, eps)
+                finally:
+                    _ex.SVD = orig_svd
                 got_shape = history.Mof(y) + [int(v) for v in y.N]
+                if svd_bad: V.fail("permute: the SVD oracle did not return an exact factorisation (hypothesis of the swap theorem)", dict(desc, shapes=svd_bad))
+                n_sched += 1
+                if len(perm_cases) < (120 if tier == "quick" else 1200):
+                    perm_cases.append("match permute_schedule %s with Some (l, sw) => l ++ [99] ++ sw | None => [98] end" % coqrun.nlist(perm))
+                    perm_want.append((perm + [99] + swaps, desc))
             else:
                 d = rng.choice([1, 2, 3])
                 N = [rng.choice([2, 4, 8, 16]) for _ in range(d)]
@@ -119,13 +141,22 @@ def run(tier, seed, replay=None):
         for c, got, want in zip(coq_cases, res, coq_want):
             if got != want: V.fail("correspondence(model/impl) mode sizes produced by the reshape loop", {"case": c, "model": got, "impl": want}, failing_input=False)
             else: n_coq += 1
+    if ok_make and perm_cases:
+        res = coqrun.eval_nat_lists("C10_p", "From TT Require Import Permute.", "", perm_cases, shard=100)
+        for got, (want, dsc) in zip(res, perm_want):
+            if got != want:
+                V.fail("correspondence(model/impl): final mode order and sequence of swapped bonds of permute differ from the Coq schedule", dict(dsc, model=got, impl=want), failing_input=False)
+            else: n_perm_coq += 1
     nviol = V.finish()
     cov = proofcheck.coverage(PID, obl, evaluations=n, distinct_nontrivial=len(dist) + n_coq,
         rule=("reshape of tensors (random ordered factorisations / merges of 6..64 elements with singleton modes anywhere) and operators, permute of tensors and operators (random "
               "permutations of 2..5 modes, badly balanced cores included), to_qtt and qtt_to_tens on power-of-two shapes; eps from 1e-16 to 1e-1, real and complex; measured: exactly the "
               "requested mode sizes, well-formedness, error <= %g*eps*||x|| (+1e-11), phase of the largest entry for complex data, dtype, bitwise operand integrity; the mode sizes "
-              "returned by reshape are compared with the Coq model of the loop") % CONST,
-        samples=samples, distribution=dist, model_shape_agreements=n_coq, known_findings_reproduced=V.known_hit,
-        partial=["the value clause (error <= small multiple of eps through the chain of SVD splits / swaps) is measured, not proved; proved: termination and exact mode sizes of the tensor reshape loop"])
+              "returned by reshape are compared with the Coq model of the loop; for permute the bond of every supercore SVD is recorded (from the calling frame) and the sequence is compared "
+              "with the Coq bubble schedule, and every SVD result is checked to be an exact factorisation (1e-12) - the hypothesis of the swap theorem") % CONST,
+        samples=samples, distribution=dist, model_shape_agreements=n_coq, permute_schedules_recorded=n_sched, permute_schedules_matching_model=n_perm_coq, known_findings_reproduced=V.known_hit,
+        partial=["proved: termination and exact mode sizes of the tensor reshape loop; termination, swap count and final order of permute's schedule; every elementary step (merge, exact split, exact "
+                 "swap) preserves all entries. NOT proved: the composition of these steps with the floating-point QR/SVD and the truncation (error <= small multiple of eps) - measured; the "
+                 "operator reshape loop and the QTT conversions are covered by measurement only"])
     common.write_evidence(PID, tier, seed, cov, time.time() - t0, nviol, common.TRUSTED_BASE)
     return 1 if nviol else 0
